@@ -6,6 +6,10 @@ Property theorems only (helpers: `ArrProofs/Lemmas/C16.lean`).  Model under test
 transcribes `create.rs:389-581`, `create_from.rs:147-257` and the `array_*!` macros arm for arm.
 Coordinates are the specification language: `r.get? c = r.elems[ravel r.shape c]?` (C02 makes `ravel` a bijection).
 
+Machine integers: the model is over unbounded `Nat`/`Int`; the two places where the code now names machine bounds
+(`saturating_add` in `tri/tril/triu`, the checked side of `diag_1d`) are modelled, and the coordinate theorems carry
+the corresponding size hypothesis (`m ≤ isizeMax`, `(len + |k|)² ≤ usizeMax`), true of every array that exists.
+
 What is NOT proved here (tie only, see `claims.d/C16.json`): the `f64` rounding of `linspace/geomspace/logspace`
 (the theorems are about exact rationals / an abstract power domain), the `N::from(f64)` casts, and that the values
 `N::rand` draws lie in the unit interval (`rand_shape` only says every element *is* a draw).
@@ -104,8 +108,9 @@ theorem identity_at (n : Nat) :
   rw [(identity_eq_eye n).2]
   simpa using eye_at n (some n) (some 0)
 
-/-- **tri**: ones on and below the k-th diagonal (`col ≤ row + k`), zeros above, for every integer offset -/
-theorem tri_at (n : Nat) (m : Option Nat) (k : Option Int) :
+/-- **tri**: ones on and below the k-th diagonal (`col ≤ row + k`), zeros above, for every integer offset
+(the code's `saturating_add` agrees with exact addition whenever the column count fits `isize`) -/
+theorem tri_at (n : Nat) (m : Option Nat) (k : Option Int) (hm : ((m.getD n : Nat) : Int) ≤ isizeMax) :
     ∃ r, tri n m k = .ok r ∧ r.shape = [n, m.getD n] ∧ r.WF ∧
       ∀ i j, i < n → j < m.getD n →
         r.get? [i, j] = some (if (j : Int) ≤ (i : Int) + k.getD 0 then 1 else 0) := by
@@ -113,14 +118,16 @@ theorem tri_at (n : Nat) (m : Option Nat) (k : Option Int) :
   intro i j hi hj
   simp only [Arr.get?, ravel2]
   rw [getElem?_flatMap_uniform (m.getD n) _ _ i j hj]
-  simp [hi]
+  have hs := (satAdd_cmp (j : Int) (i : Int) (k.getD 0) (by omega) (by omega) (by omega)).1
+  simp [hi, hs]
 
 /-! ### triangular masks -/
 
 /-- **tril**, every rank ≥ 2 (a stack of `r × m` matrices): the entry at `[…, i, j]` is kept iff `j ≤ i + k`,
 otherwise it is zero; shape unchanged. -/
 theorem tril_at (a : Arr Int) (k : Option Int) (pre cp : List Nat) (r m i j : Nat)
-    (hwf : a.WF) (hs : a.shape = pre ++ [r, m]) (hc : inRange a.shape (cp ++ [i, j]) = true) :
+    (hwf : a.WF) (hs : a.shape = pre ++ [r, m]) (hm : (m : Int) ≤ isizeMax)
+    (hc : inRange a.shape (cp ++ [i, j]) = true) :
     ∃ t, tril a k = .ok t ∧ t.shape = a.shape ∧ t.WF ∧
       t.get? (cp ++ [i, j]) = if (j : Int) ≤ (i : Int) + k.getD 0 then a.get? (cp ++ [i, j]) else some 0 := by
   refine ⟨_, applyTriangular_eq a _ _ pre r m hwf hs, rfl, by simp [Arr.WF]; exact hwf, ?_⟩
@@ -129,15 +136,18 @@ theorem tril_at (a : Arr Int) (k : Option Int) (pre cp : List Nat) (r m i j : Na
   obtain ⟨e1, e2⟩ := ravel_row_col pre cp r m i j hc
   rw [hs] at hlt
   simp only [Arr.get?, List.getElem?_mapIdx, hs, List.getElem?_eq_getElem hlt, Option.map_some, maskAt, e1, e2]
+  have hjm : j < m := (inRange_snoc2 r m i j pre cp (by have := inRange_length _ _ hc; simp at this; omega) hc).2.2
+  have hsat := (satAdd_cmp (j : Int) (i : Int) (k.getD 0) (by omega) (by omega) (by omega)).2.1
   by_cases h : (j : Int) ≤ (i : Int) + k.getD 0
-  · have : ¬ ((j : Int) > (i : Int) + k.getD 0) := by omega
+  · have : ¬ ((j : Int) > satAdd (i : Int) (k.getD 0)) := by rw [hsat]; omega
     simp [h, this]
-  · have : (j : Int) > (i : Int) + k.getD 0 := by omega
+  · have : (j : Int) > satAdd (i : Int) (k.getD 0) := by rw [hsat]; omega
     simp [h, this]
 
 /-- **triu**: kept iff `j ≥ i + k`, otherwise zero. -/
 theorem triu_at (a : Arr Int) (k : Option Int) (pre cp : List Nat) (r m i j : Nat)
-    (hwf : a.WF) (hs : a.shape = pre ++ [r, m]) (hc : inRange a.shape (cp ++ [i, j]) = true) :
+    (hwf : a.WF) (hs : a.shape = pre ++ [r, m]) (hm : (m : Int) ≤ isizeMax)
+    (hc : inRange a.shape (cp ++ [i, j]) = true) :
     ∃ t, triu a k = .ok t ∧ t.shape = a.shape ∧ t.WF ∧
       t.get? (cp ++ [i, j]) = if (i : Int) + k.getD 0 ≤ (j : Int) then a.get? (cp ++ [i, j]) else some 0 := by
   refine ⟨_, applyTriangular_eq a _ _ pre r m hwf hs, rfl, by simp [Arr.WF]; exact hwf, ?_⟩
@@ -146,16 +156,18 @@ theorem triu_at (a : Arr Int) (k : Option Int) (pre cp : List Nat) (r m i j : Na
   obtain ⟨e1, e2⟩ := ravel_row_col pre cp r m i j hc
   rw [hs] at hlt
   simp only [Arr.get?, List.getElem?_mapIdx, hs, List.getElem?_eq_getElem hlt, Option.map_some, maskAt, e1, e2]
+  have hjm : j < m := (inRange_snoc2 r m i j pre cp (by have := inRange_length _ _ hc; simp at this; omega) hc).2.2
+  have hsat := (satAdd_cmp (j : Int) (i : Int) (k.getD 0) (by omega) (by omega) (by omega)).2.2
   by_cases h : (i : Int) + k.getD 0 ≤ (j : Int)
-  · have : ¬ ((j : Int) < (i : Int) + k.getD 0) := by omega
+  · have : ¬ ((j : Int) < satAdd (i : Int) (k.getD 0)) := by rw [hsat]; omega
     simp [h, this]
-  · have : (j : Int) < (i : Int) + k.getD 0 := by omega
+  · have : (j : Int) < satAdd (i : Int) (k.getD 0) := by rw [hsat]; omega
     simp [h, this]
 
 /-- **lower(k) + upper(k+1) reassemble the input** (elementwise sum over the whole element list), and both
 results are well-formed arrays of the input's shape.  Holds for empty matrices too (zero-length sides). -/
 theorem tril_add_triu (a : Arr Int) (k : Int) (pre : List Nat) (r m : Nat)
-    (hwf : a.WF) (hs : a.shape = pre ++ [r, m]) :
+    (hwf : a.WF) (hs : a.shape = pre ++ [r, m]) (hm : (m : Int) ≤ isizeMax) :
     ∃ l u, tril a (some k) = .ok l ∧ triu a (some (k + 1)) = .ok u ∧
       l.shape = a.shape ∧ u.shape = a.shape ∧ l.WF ∧ u.WF ∧
       List.zipWith (· + ·) l.elems u.elems = a.elems := by
@@ -165,17 +177,27 @@ theorem tril_add_triu (a : Arr Int) (k : Int) (pre : List Nat) (r m : Nat)
   intro idx h1 h2
   simp only [List.getElem_zipWith, List.getElem_mapIdx, maskAt, Option.getD_some]
   simp only [decide_eq_true_eq]
+  have hm0 : 0 < m := by
+    rcases Nat.eq_zero_or_pos m with h0 | h0
+    · have : a.elems.length = 0 := by rw [hwf, hs, h0]; simp [List.prod_append]
+      omega
+    · exact h0
+  have hjm : idx % m < m := Nat.mod_lt _ hm0
+  have s1 := (satAdd_cmp ((idx % m : Nat) : Int) ((idx / m % r : Nat) : Int) k (by omega) (by omega) (by omega)).2.1
+  have s2 := (satAdd_cmp ((idx % m : Nat) : Int) ((idx / m % r : Nat) : Int) (k + 1) (by omega) (by omega) (by omega)).2.2
+  simp only [s1, s2]
   split <;> split <;> omega
 
 /-- **exactly one of the two keeps each entry**: at every coordinate, either the lower part holds the input's
 entry and the upper part holds zero (`j ≤ i + k`), or the other way round (`j > i + k`). -/
 theorem tril_triu_partition (a : Arr Int) (k : Int) (pre cp : List Nat) (r m i j : Nat)
-    (hwf : a.WF) (hs : a.shape = pre ++ [r, m]) (hc : inRange a.shape (cp ++ [i, j]) = true) :
+    (hwf : a.WF) (hs : a.shape = pre ++ [r, m]) (hm : (m : Int) ≤ isizeMax)
+    (hc : inRange a.shape (cp ++ [i, j]) = true) :
     ∃ l u, tril a (some k) = .ok l ∧ triu a (some (k + 1)) = .ok u ∧
       (((j : Int) ≤ (i : Int) + k ∧ l.get? (cp ++ [i, j]) = a.get? (cp ++ [i, j]) ∧ u.get? (cp ++ [i, j]) = some 0) ∨
        ((j : Int) > (i : Int) + k ∧ l.get? (cp ++ [i, j]) = some 0 ∧ u.get? (cp ++ [i, j]) = a.get? (cp ++ [i, j]))) := by
-  obtain ⟨l, hl, _, _, hl4⟩ := tril_at a (some k) pre cp r m i j hwf hs hc
-  obtain ⟨u, hu, _, _, hu4⟩ := triu_at a (some (k + 1)) pre cp r m i j hwf hs hc
+  obtain ⟨l, hl, _, _, hl4⟩ := tril_at a (some k) pre cp r m i j hwf hs hm hc
+  obtain ⟨u, hu, _, _, hu4⟩ := triu_at a (some (k + 1)) pre cp r m i j hwf hs hm hc
   refine ⟨l, u, hl, hu, ?_⟩
   simp only [Option.getD_some] at hl4 hu4
   by_cases h : (j : Int) ≤ (i : Int) + k
@@ -208,7 +230,8 @@ theorem tril_triu_never_panic (a : Arr Int) (k : Option Int) : tril a k ≠ .pan
 /-! ### diag / diagflat -/
 
 /-- **vector → matrix**: side `len + |k|`, the vector on the k-th diagonal (`col = row + k`), zero elsewhere -/
-theorem diag_vector_at (v : List Int) (k : Int) :
+theorem diag_vector_at (v : List Int) (k : Int)
+    (hb : (v.length + k.natAbs) * (v.length + k.natAbs) ≤ usizeMax) :
     ∃ d, diag (Arr.flat v) (some k) = .ok d ∧ d.shape = [v.length + k.natAbs, v.length + k.natAbs] ∧ d.WF ∧
       ∀ i j, i < v.length + k.natAbs → j < v.length + k.natAbs →
         d.get? [i, j] = some (if (j : Int) = (i : Int) + k then v.getD (min i j) 0 else 0) := by
@@ -216,9 +239,17 @@ theorem diag_vector_at (v : List Int) (k : Int) :
     [v.length + k.natAbs, v.length + k.natAbs]⟩, ?_, rfl, by simp [Arr.WF], ?_⟩
   · unfold diag
     simp only [Arr.flat, Arr.ndim, List.length_cons, List.length_nil, Option.getD_some]
-    simpa [Arr.flat] using diag1d_eq v k
+    simpa [Arr.flat] using diag1d_eq v k hb
   · intro i j hi hj
     rw [get_rangeMap _ _ _ i j hi hj, diag1dAt_coord v k i j hi hj]
+
+/-- a result whose element count `(len + |k|)²` does not fit `usize` is refused with an error value (no panic) -/
+theorem diag_vector_too_large (v : List Int) (k : Int)
+    (hb : (v.length + k.natAbs) * (v.length + k.natAbs) > usizeMax) :
+    diag (Arr.flat v) (some k) = .err .OutOfBounds := by
+  unfold diag
+  simp only [Arr.flat, Arr.ndim, List.length_cons, List.length_nil, Option.getD_some]
+  simpa [Arr.flat] using diag1d_too_large v k hb
 
 /-- **matrix → vector**: the k-th diagonal of an `r × c` matrix, entry `t` read at `[(-k)⁺ + t, k⁺ + t]`,
 as long as the diagonal is (`min (r - (-k)⁺) (c - k⁺)` entries; empty when the offset is beyond the matrix) -/
@@ -242,9 +273,10 @@ theorem diag_matrix_at (a : Arr Int) (r c : Nat) (k : Int) (hwf : a.WF) (hs : a.
     simp [List.getD_eq_getElem?_getD, hlt]
 
 /-- **building a diagonal matrix from a vector and extracting that diagonal are inverse**, every vector, every offset -/
-theorem diag_diag (v : List Int) (k : Int) :
+theorem diag_diag (v : List Int) (k : Int)
+    (hb : (v.length + k.natAbs) * (v.length + k.natAbs) ≤ usizeMax) :
     ∃ d, diag (Arr.flat v) (some k) = .ok d ∧ diag d (some k) = .ok (Arr.flat v) := by
-  obtain ⟨d, hd, hshape, hwf, hat⟩ := diag_vector_at v k
+  obtain ⟨d, hd, hshape, hwf, hat⟩ := diag_vector_at v k hb
   obtain ⟨e, he, heshape, helen, heat⟩ := diag_matrix_at d _ _ k hwf hshape
   refine ⟨d, hd, ?_⟩
   rw [he]
@@ -266,13 +298,14 @@ theorem diag_diag (v : List Int) (k : Int) :
 
 /-- **diagflat = diag ∘ ravel**: for an array of any rank the result holds its elements, in row-major order,
 on the k-th diagonal of a square matrix of side `len + |k|` -/
-theorem diagflat_at (a : Arr Int) (k : Int) :
+theorem diagflat_at (a : Arr Int) (k : Int)
+    (hb : (a.elems.length + k.natAbs) * (a.elems.length + k.natAbs) ≤ usizeMax) :
     diagflat a (some k) = diag (Arr.flat a.elems) (some k) ∧
     ∃ d, diagflat a (some k) = .ok d ∧ d.shape = [a.elems.length + k.natAbs, a.elems.length + k.natAbs] ∧
       ∀ i j, i < a.elems.length + k.natAbs → j < a.elems.length + k.natAbs →
         d.get? [i, j] = some (if (j : Int) = (i : Int) + k then a.elems.getD (min i j) 0 else 0) := by
   refine ⟨rfl, ?_⟩
-  obtain ⟨d, h1, h2, _, h4⟩ := diag_vector_at a.elems k
+  obtain ⟨d, h1, h2, _, h4⟩ := diag_vector_at a.elems k hb
   exact ⟨d, h1, h2, h4⟩
 
 /-- ranks other than 1 and 2 are refused with an error value -/
@@ -322,36 +355,36 @@ theorem arange_spec (start stop step : Rat) (hstep : 1 ≤ step) :
 /-- default step 1 -/
 theorem arange_default_step (start stop : Rat) : arange start stop none = arange start stop (some 1) := rfl
 
+/-- a zero step is refused with an error value (no panic, no array) -/
+theorem arange_zero_step_refused (start stop : Rat) : arange start stop (some 0) = .err .ParameterError := by
+  unfold arange; simp
+
 /-! ### evenly spaced -/
 
-/-- closed form of a successful `linspace` -/
-theorem linspace_ok (start stop : Rat) (n : Nat) (e : Bool) (h : n ≥ 1 ∨ e = false) :
+/-- `linspace` never fails; closed form of its result -/
+theorem linspace_ok (start stop : Rat) (n : Nat) (e : Bool) :
     linspace start stop (some n) (some e) = .ok (Arr.flat ((List.range n).map fun i =>
       if e = true ∧ i = n - 1 then stop
       else (i : Rat) * ((stop - start) / ((n - (if e then 1 else 0) : Nat) : Rat)) + start)) := by
-  unfold linspace usizeSub
+  unfold linspace
   simp only [Option.getD_some]
-  rw [if_neg (by cases e <;> simp at h ⊢; omega)]
 
 /-- **count**: the requested number of points, as a 1-D array -/
 theorem linspace_len (start stop : Rat) (n : Nat) (e : Bool) (r : Arr Rat)
     (h : linspace start stop (some n) (some e) = .ok r) : r.shape = [n] ∧ r.elems.length = n := by
-  have hn : n ≥ 1 ∨ e = false := by
-    unfold linspace usizeSub at h
-    cases e
-    · right; rfl
-    · left
-      by_cases h0 : n < 1
-      · simp [h0] at h
-      · omega
-  rw [linspace_ok start stop n e hn] at h
+  rw [linspace_ok start stop n e] at h
   cases h
   simp [Arr.flat]
+
+/-- **zero points**: the empty 1-D array, with either endpoint setting (no underflow, no panic) -/
+theorem linspace_zero (start stop : Rat) (e : Option Bool) :
+    linspace start stop (some 0) e = .ok (Arr.flat []) := by
+  unfold linspace; simp
 
 /-- **two or more points begin at the start value** -/
 theorem linspace_first (start stop : Rat) (n : Nat) (e : Bool) (hn : 2 ≤ n) (r : Arr Rat)
     (h : linspace start stop (some n) (some e) = .ok r) : r.elems[0]? = some start := by
-  rw [linspace_ok start stop n e (Or.inl (by omega))] at h
+  rw [linspace_ok start stop n e] at h
   cases h
   have : ¬ (0 = n - 1) := by omega
   simp [Arr.flat, this, Rat.zero_mul, Rat.zero_add, show 0 < n by omega]
@@ -359,7 +392,7 @@ theorem linspace_first (start stop : Rat) (n : Nat) (e : Bool) (hn : 2 ≤ n) (r
 /-- **and end at the stop value when the endpoint is requested** -/
 theorem linspace_last (start stop : Rat) (n : Nat) (hn : 1 ≤ n) (r : Arr Rat)
     (h : linspace start stop (some n) (some true) = .ok r) : r.elems[n - 1]? = some stop := by
-  rw [linspace_ok start stop n true (Or.inl hn)] at h
+  rw [linspace_ok start stop n true] at h
   cases h
   simp [Arr.flat, show n - 1 < n by omega]
 
@@ -369,7 +402,7 @@ theorem linspace_step (start stop : Rat) (n : Nat) (e : Bool) (hn : 2 ≤ n) (r 
     (h : linspace start stop (some n) (some e) = .ok r) (i : Nat) (hi : i + 1 < n) :
     ∃ x y, r.elems[i]? = some x ∧ r.elems[i + 1]? = some y ∧
       y - x = (stop - start) / ((n - (if e then 1 else 0) : Nat) : Rat) := by
-  rw [linspace_ok start stop n e (Or.inl (by omega))] at h
+  rw [linspace_ok start stop n e] at h
   cases h
   simp only [Arr.flat, List.getElem?_map, List.getElem?_range hi, List.getElem?_range (show i < n by omega), Option.map_some]
   refine ⟨_, _, rfl, rfl, ?_⟩
@@ -408,13 +441,18 @@ theorem logDomain_laws : PowLaws logDomain := by
 variable {R : Type} (P : PowOps R)
 
 theorem geomspace_ok (isZero : R → Bool) (s t : R) (n : Nat) (e : Bool)
-    (hs : isZero s = false) (ht : isZero t = false) (h : n ≥ 1 ∨ e = false) :
+    (hs : isZero s = false) (ht : isZero t = false) :
     geomspace P isZero s t (some n) (some e) = .ok ((List.range n).map fun i =>
       if e = true ∧ i = n - 1 then t
       else P.mul s (P.powf (P.powf (P.div t s) (1 / ((n - (if e then 1 else 0) : Nat) : Rat))) (i : Rat))) := by
-  unfold geomspace usizeSub
+  unfold geomspace
   simp only [Option.getD_some, hs, ht, Bool.false_eq_true, if_false]
-  rw [if_neg (by cases e <;> simp at h ⊢ <;> omega)]
+
+/-- zero points: the empty sequence (no underflow, no panic) -/
+theorem geomspace_zero_points (isZero : R → Bool) (s t : R) (e : Option Bool)
+    (hs : isZero s = false) (ht : isZero t = false) :
+    geomspace P isZero s t (some 0) e = .ok [] := by
+  unfold geomspace; simp [hs, ht]
 
 /-- a zero start or stop is refused with an error value -/
 theorem geomspace_zero (isZero : R → Bool) (s t : R) (n : Option Nat) (e : Option Bool)
@@ -440,7 +478,7 @@ theorem geomspace_spec (L : PowLaws P) (isZero : R → Bool) (s t : R) (n : Nat)
     cases hz : isZero t
     · rfl
     · rw [geomspace_zero P isZero s t _ _ (Or.inr hz)] at h; cases h
-  rw [geomspace_ok P isZero s t n e hs ht (Or.inl (by omega))] at h
+  rw [geomspace_ok P isZero s t n e hs ht] at h
   cases h
   refine ⟨by simp, ?_, ?_, ?_⟩
   · have : ¬ (0 = n - 1) := by omega
@@ -480,28 +518,25 @@ theorem logspace_eq_base_pow_linspace (L : PowLaws P) (base : R) (start stop : R
     r = l.elems.map (P.powf base) := by
   unfold logspace at hr
   unfold linspace at hl
-  cases hd : usizeSub (n.getD 50) (if e.getD true = true then 1 else 0) with
-  | err x => simp [hd] at hr
-  | panic => simp [hd] at hr
-  | ok d =>
-    simp only [hd] at hr hl
-    cases hr
-    cases hl
-    simp only [Arr.flat, List.map_map]
-    apply List.map_congr_left
-    intro i _
-    simp only [Function.comp]
-    split
-    · rfl
-    · rw [L.div_powf, L.powf_powf, L.powf_powf, L.powf_add]
-      congr 1
-      grind
+  simp only at hr hl
+  cases hr
+  cases hl
+  simp only [Arr.flat, List.map_map]
+  apply List.map_congr_left
+  intro i _
+  simp only [Function.comp]
+  split
+  · rfl
+  · rw [L.div_powf, L.powf_powf, L.powf_powf, L.powf_add]
+    congr 1
+    grind
 
-/-- `logspace` succeeds exactly when `linspace` does (same `num − delta` underflow) -/
-theorem logspace_ok_iff (base : R) (start stop : Rat) (n : Option Nat) (e : Option Bool) :
-    (∃ r, logspace P base start stop n e = .ok r) ↔ (∃ l, linspace start stop n e = .ok l) := by
+/-- `logspace` and `linspace` never fail (in particular not for zero points), and have the requested count -/
+theorem logspace_linspace_total (base : R) (start stop : Rat) (n : Option Nat) (e : Option Bool) :
+    (∃ r, logspace P base start stop n e = .ok r ∧ r.length = n.getD 50) ∧
+    (∃ l, linspace start stop n e = .ok l ∧ l.elems.length = n.getD 50) := by
   unfold logspace linspace
-  cases hd : usizeSub (n.getD 50) (if e.getD true = true then 1 else 0) <;> simp [hd]
+  exact ⟨⟨_, rfl, by simp⟩, ⟨_, rfl, by simp [Arr.flat]⟩⟩
 
 /-! ### the `array_*!` macros -/
 
@@ -523,6 +558,14 @@ example : (⟨(List.range 18).map (fun (i : Nat) => (i : Int) + 1), [2, 3, 3]⟩
 example : tril ⟨[1, 2, 3, 4, 5, 6], [2, 3]⟩ (some 0) = .ok ⟨[1, 0, 0, 4, 5, 0], [2, 3]⟩ := by decide
 example : triu ⟨[1, 2, 3, 4, 5, 6], [2, 3]⟩ (some 1) = .ok ⟨[0, 2, 3, 0, 0, 6], [2, 3]⟩ := by decide
 example : tril ⟨[], [0, 3]⟩ none = .ok ⟨[], [0, 3]⟩ := by decide
+-- the size hypotheses (`m ≤ isizeMax`, `(len + |k|)² ≤ usizeMax`) hold for every array that fits in memory
+example : ((3 : Nat) : Int) ≤ isizeMax ∧ (3 + (2 : Int).natAbs) * (3 + (2 : Int).natAbs) ≤ usizeMax := by decide
+-- extreme offsets: saturating arithmetic, an error value instead of an impossible allocation
+example : tril ⟨[1, 2, 3, 4, 5, 6], [2, 3]⟩ (some 9223372036854775807) = .ok ⟨[1, 2, 3, 4, 5, 6], [2, 3]⟩ := by decide +kernel
+example : triu ⟨[1, 2, 3, 4, 5, 6], [2, 3]⟩ (some 9223372036854775807) = .ok ⟨[0, 0, 0, 0, 0, 0], [2, 3]⟩ := by decide +kernel
+example : tri 2 none (some (-9223372036854775808)) = .ok ⟨[0, 0, 0, 0], [2, 2]⟩ := by decide
+example : diag (Arr.flat [1]) (some 9223372036854775807) = .err .OutOfBounds := by decide
+example : diag ⟨[1, 2, 3, 4, 5, 6], [2, 3]⟩ (some (-9223372036854775808)) = .ok ⟨[], [0]⟩ := by decide
 example : tril ⟨[1, 2, 3], [3]⟩ none = .err .UnsupportedDimension := by decide
 example : diag (Arr.flat [1, 2, 3]) (some (-1)) = .ok ⟨[0, 0, 0, 0, 1, 0, 0, 0, 0, 2, 0, 0, 0, 0, 3, 0], [4, 4]⟩ := by decide
 example : diag ⟨[1, 2, 3, 4, 5, 6], [2, 3]⟩ (some 1) = .ok ⟨[2, 6], [2]⟩ := by decide
@@ -533,7 +576,8 @@ example : arange 0 5 none = .ok (Arr.flat [0, 1, 2, 3, 4, 5]) := by decide +kern
 example : arange 0 4 (some 2) = .ok (Arr.flat [0, 2]) := by decide +kernel
 example : linspace 0 10 (some 5) none = .ok (Arr.flat [0, 5 / 2, 5, 15 / 2, 10]) := by decide +kernel
 example : linspace 0 10 (some 5) (some false) = .ok (Arr.flat [0, 2, 4, 6, 8]) := by decide +kernel
-example : linspace 0 10 (some 0) (some true) = .panic := by decide +kernel
+example : linspace 0 10 (some 0) (some true) = .ok (Arr.flat []) := by decide +kernel
+example : arange 0 5 (some 0) = .err .ParameterError := by decide +kernel
 -- in logarithmic coordinates `geomspace` is `linspace`: log 1 = 0, log 1000 = 3 (base 10)
 example : geomspace logDomain (fun _ => false) 0 3 (some 4) none = .ok [0, 1, 2, 3] := by decide +kernel
 example : logspace logDomain 1 0 3 (some 4) none = .ok [0, 1, 2, 3] := by decide +kernel
